@@ -9,6 +9,9 @@ Section C01.
 
   (** the cascade stops at a conftest that merely IMPORTS the name and hands out the
       first-registered same-named definition, which that conftest does not import *)
+  Definition flt_of (ex : option fdef) : fdef -> bool :=
+    fun d => match ex with Some x => negb (fdef_eqb d x) | None => true end.
+
   Definition stop_at (s : index) (flt : fdef -> bool) (n : string) (dirs : list path) : option (path * fdef) :=
     first_some (fun dir =>
                   match conftest_step dk roots s flt (defs_named s n) n dir with
@@ -17,17 +20,14 @@ Section C01.
                   end) dirs.
 
   Definition import_stop (s : index) (flt : fdef -> bool) (F : path) (n : string) : option (path * fdef) :=
-    match max_by_key d_line (filter (fun d => path_eqb (d_file d) F && flt d) (defs_named s n)) with
+    match last_binding flt (defs_named s n) F with
     | Some _ => None
     | None => stop_at s flt n (ancestors (tl F))
     end.
 
   Definition K_import_provenance (s : index) (ex : option fdef) (F : path) (n : string) : bool :=
-    let flt := fun d => match ex with Some x => negb (fdef_eqb d x) | None => true end in
-    match import_stop s flt F n with
-    | Some (dir, d) =>
-        negb (path_eqb (d_file d) (conftest_py :: dir))
-        && negb (conftest_class dk roots s dir n d)
+    match import_stop s (flt_of ex) F n with
+    | Some (dir, d) => negb (conftest_class dk roots s dir n d)
     | None => false
     end.
 
